@@ -31,6 +31,7 @@ let () =
       | ["sort"; ts] ->
         (match sort_layout_of (types_of ts) with
          | Panic -> print_endline "panic"
+         | Err -> print_endline "err"
          | Ok l -> Printf.printf "offsets=%s widths=%s compare=%s width=%s heap=%s heaprow=%s\n" (ns l.sl_offsets) (ns l.sl_widths)
                      (string_of_n l.sl_compare) (string_of_n l.sl_width)
                      (String.concat "," (List.map (function Some i -> string_of_int (int_of_nat i) | None -> "-") l.sl_heap_mapping))
